@@ -121,7 +121,7 @@ Section V1.
   Proof.
     intros cf st c um st' tr c' rp H. unfold TurnV1.gen_reply in H.
     destruct (dialog cf).
-    - destruct (intent_step (tidx st) (llm (tidx st) 0 (mkPrompt KIntent (hist st) um))) as [bi|] eqn:Hi.
+    - destruct (intent_step (tidx st) (llm (tidx st) 0 (mkPrompt KIntent (hist st) um))) as [bi| |mv] eqn:Hi.
       + destruct (predefined bi) as [m|] eqn:Hp.
         * destruct (process_bot_skip cf (set_skip st true) c m eq_refl) as (st1 & Hpb & Hsk & Hti).
           rewrite Hpb in H. inversion H; subst; clear H.
@@ -138,6 +138,10 @@ Section V1.
           inversion H; subst; clear H.
           eexists [TLLM 0 _; TLLM 1 _; TLLM 2 _]. split; [repeat constructor|]. right.
           eexists _, tr1. split; [reflexivity|exact Hpb].
+      + destruct (TurnV1.process_bot vf refusal cf st c mv) as [[[st1 tr1] c1] rp1] eqn:Hpb.
+        inversion H; subst; clear H.
+        eexists [TLLM 0 _]. split; [repeat constructor|]. right.
+        eexists mv, tr1. split; [reflexivity|exact Hpb].
     - destruct (TurnV1.process_bot vf refusal cf st c _) as [[[st1 tr1] c1] rp1] eqn:Hpb.
       inversion H; subst; clear H.
       eexists [TLLM 0 _]. split; [repeat constructor|]. right.
